@@ -42,6 +42,8 @@ type loopInfo struct {
 }
 
 type Exec struct {
+	splitting    bool
+	invQVals     []invQVal
 	invVals      []invVal
 	captured     map[string]Val
 	callOrd      map[string]int
@@ -123,6 +125,9 @@ func (ex *Exec) oblige(kind, label, goal string, p token.Pos) {
 		}
 	}
 	o := &Oblig{Name: name, Func: ex.fnName(), Kind: kind, Label: label, Cut: len(ex.e.lines), Goal: g, Pos: ex.pos(p), ex: ex, Inputs: ex.inputs, Reach: r}
+	if ex.con != nil && ex.con.TimeoutS > 0 {
+		o.TimeoutS = ex.con.TimeoutS
+	}
 	ex.obligs = append(ex.obligs, o)
 	ex.e.assume(g)
 }
@@ -164,11 +169,20 @@ func (ex *Exec) paramVal(name string, t types.Type) Val {
 
 func (ex *Exec) relyInvOnly(v Val, t types.Type) {
 	if v.T != "" && v.Loc == nil && v.Tup == nil {
+		for _, cl := range ex.g.typeInvQ[typeKey(t)] {
+			ex.invQVals = append(ex.invQVals, invQVal{v, cl})
+			ex.assumeHere(ex.clauseTerm(cl, map[string]Val{cl.ObsName: v}, ex.st, ex.entry, false))
+		}
 		if inv := ex.g.typeInv[typeKey(t)]; inv != nil {
 			ex.invVals = append(ex.invVals, invVal{v, inv})
 			ex.assumeInv(v, inv)
 		}
 	}
+}
+
+type invQVal struct {
+	v  Val
+	cl *Clause
 }
 
 type invVal struct {
@@ -199,6 +213,10 @@ func (ex *Exec) assumeInv(v Val, inv *ssa.Function) {
 // hypothesis of the global invariant whose other half is the create obligations).
 func (ex *Exec) rely(v Val, t types.Type) {
 	if v.T != "" && v.Loc == nil && v.Tup == nil {
+		for _, cl := range ex.g.typeInvQ[typeKey(t)] {
+			ex.invQVals = append(ex.invQVals, invQVal{v, cl})
+			ex.assumeHere(ex.clauseTerm(cl, map[string]Val{cl.ObsName: v}, ex.st, ex.entry, false))
+		}
 		if inv := ex.g.typeInv[typeKey(t)]; inv != nil {
 			ex.invVals = append(ex.invVals, invVal{v, inv})
 			ex.assumeInv(v, inv)
@@ -330,12 +348,15 @@ func (ex *Exec) jsEffect(st *State) *State {
 	oldAlloc := st.get("alloc")
 	n := st.havocAll(ex.keepStable(esc))
 	n.heap["jsfx"] = "true"
-	if len(ex.invVals) > 0 && ex.curBlock != nil {
+	if len(ex.invVals)+len(ex.invQVals) > 0 && ex.curBlock != nil {
 		// unknown code preserves the type invariants of the objects we hold
 		savedSt := ex.st
 		ex.st = n
 		for _, iv := range ex.invVals {
 			ex.assumeInv(iv.v, iv.inv)
+		}
+		for _, iv := range ex.invQVals {
+			ex.assumeHere(ex.clauseTerm(iv.cl, map[string]Val{iv.cl.ObsName: iv.v}, ex.st, ex.entry, false))
 		}
 		ex.st = savedSt
 	}
@@ -918,7 +939,7 @@ func (ex *Exec) execInstr(in ssa.Instruction) {
 			a := ex.newArr("arr_" + sanitize(in.Comment))
 			if _, isS := isStruct(at.Elem()); !isS {
 				h := e.elemHeap(at.Elem())
-				ex.st.set(h, fmt.Sprintf("(store %s %s ((as const (Array Int %s)) %s))", ex.st.get(h), a, e.sortOf(at.Elem()), e.zeroValue(at.Elem())))
+				ex.st.set(h, fmt.Sprintf("(store %s %s %s)", ex.st.get(h), a, e.constArray(e.sortOf(at.Elem()), e.zeroValue(at.Elem()))))
 			}
 			ex.vals[in] = Val{Loc: &Loc{Kind: LArr, Base: a, Typ: t}, S: "Ref"}
 			return
@@ -973,7 +994,7 @@ func (ex *Exec) execInstr(in ssa.Instruction) {
 		ex.check("makeslice", fmt.Sprintf("(and (<= 0 %s) (<= %s %s))", ln.T, ln.T, cp.T), in.Pos(), "len")
 		if _, isS := isStruct(et); !isS {
 			h := e.elemHeap(et)
-			ex.st.set(h, fmt.Sprintf("(store %s %s ((as const (Array Int %s)) %s))", ex.st.get(h), a, e.sortOf(et), e.zeroValue(et)))
+			ex.st.set(h, fmt.Sprintf("(store %s %s %s)", ex.st.get(h), a, e.constArray(e.sortOf(et), e.zeroValue(et))))
 		} else {
 			ex.zeroStructElems(et, a)
 		}
@@ -1253,8 +1274,48 @@ func (ex *Exec) resultMap(vals []Val) map[string]Val {
 	return m
 }
 
+// doReturn: postconditions and frame at a return. A return block that is a pure join point (only
+// phis before the return) is checked once per incoming path, with that path's own state, so that
+// no obligation mentions an ite-merged heap (quantifier instantiation does not see through ite).
 func (ex *Exec) doReturn(in *ssa.Return) {
 	if ex.con == nil {
+		return
+	}
+	b := in.Block()
+	pure := len(b.Preds) > 1 && ex.loops[b] == nil
+	for _, x := range b.Instrs {
+		switch x.(type) {
+		case *ssa.Phi, *ssa.DebugRef, *ssa.Return:
+		default:
+			pure = false
+		}
+	}
+	if pure && !ex.splitting {
+		savedSt, savedReach := ex.st, ex.reach[b]
+		savedVals := map[*ssa.Phi]Val{}
+		ex.splitting = true
+		for i, p := range b.Preds {
+			c, ok := ex.edge[[2]int{p.Index, b.Index}]
+			if !ok || ex.back[[2]int{p.Index, b.Index}] {
+				continue
+			}
+			ex.st = ex.exit[p].clone()
+			ex.reach[b] = c
+			for _, x := range b.Instrs {
+				if phi, ok := x.(*ssa.Phi); ok {
+					if _, done := savedVals[phi]; !done {
+						savedVals[phi] = ex.vals[phi]
+					}
+					ex.vals[phi] = ex.get(phi.Edges[i])
+				}
+			}
+			ex.doReturn(in)
+		}
+		ex.splitting = false
+		ex.st, ex.reach[b] = savedSt, savedReach
+		for phi, v := range savedVals {
+			ex.vals[phi] = v
+		}
 		return
 	}
 	var vals []Val
@@ -1266,6 +1327,17 @@ func (ex *Exec) doReturn(in *ssa.Return) {
 		vals = append(vals, v)
 	}
 	m := ex.resultMap(vals)
+	if len(ex.con.ExitVars) > 0 {
+		b := in.Block()
+		pos := len(b.Instrs) - 1
+		for _, p := range ex.con.ExitVars {
+			if v := ex.reachingDef(p.Name, b, pos); v != nil {
+				m[p.Name] = ex.get(v)
+			} else {
+				ex.unsup("exitvars: cannot resolve variable %s at the return", p.Name)
+			}
+		}
+	}
 	for i, cl := range ex.con.Ensures {
 		lbl := cl.Label
 		if lbl == "" {
